@@ -9,5 +9,7 @@ def jobs(prop, tier):
             ch(prop, "vf/pyshim/h_c04b.py", "h_stats_selection", t, ["writer.make_row_group (statistics selection)"]),
             ch(prop, "vf/pyshim/h_c04c.py", "h_statistics_chunk", t, ["api.statistics (ColumnChunk)"]),
             ch(prop, "vf/pyshim/h_c04c.py", "h_statistics_file", t, ["api.statistics (RowGroup, ParquetFile)"]),
+            ch(prop, "vf/pyshim/h_wc.py", "h_bool_stats", t, ["writer.write_column (statistics of BOOLEAN columns)"],
+               env=dict(VERIF_CATS=0)),
             ch(prop, "vf/pyshim/h_wc.py", "h_bytes_stats", t, ["writer.write_column (statistics of BYTE_ARRAY columns)"],
                env=dict(VERIF_CATS=0))]
